@@ -9,6 +9,7 @@ import Wax.Proofs.RuleSpecEquiv
 import Wax.Proofs.DepthTree
 import Wax.Proofs.ExhShape
 import Wax.Proofs.PartitionAll
+import Wax.Proofs.DepthBranchTree
 /-! Executable fragment tests of the query theorems (`exhaustive_sound_partial`,
 `depth_sound_partial`, `text_exact`), used as classifiers by the checks. -/
 namespace Wax
@@ -47,6 +48,9 @@ def splitRuns : List Tok → List (List Tok)
 /-- hypotheses of `depth_sound_partial`: runs of literals, classes and wildcards joined by
 separators, every run empty (only at either end) or containing a token that cannot match "" -/
 def cmdF10 (t : Tok) : String :=
+  -- `depth_sound_branch_tree_partial`: `F10c` contains the flat fragments of `depth_sound_partial` and
+  -- `depth_sound_tree_partial` and the branch fragments of `DepthBranch` / `DepthBranchTree`
+  if F10c t then showFrag (encTags t) else
   let ts := t.concatenation
   let isRun : Tok → Bool := fun x => match x with | .lit .. | .cls .. | .one _ | .zom .. => true | _ => false
   let isSp : Tok → Bool := fun x => match x with | .sep _ => true | _ => false
